@@ -46,11 +46,20 @@ Special == {Mk(fr, lk, st) : fr \in {<<>>, <<Kinds[1]>>, <<Kinds[2]>>, <<Kinds[3
    level whose stacks the comparison cannot tell apart, so that lock and state must decide *)
 KA(v) == [Kinds[2] EXCEPT !.args = Args(<<Sc(v, FALSE)>>, FALSE)]
 SpecialArgs == {Mk(<<KA(v)>>, lk, st) : v \in {5, 6}, lk \in BOOLEAN, st \in {"s1", "s2"}}
-SSet == Plain \cup Special \cup SpecialArgs
+(* files of one function that differ only by the case of a letter, with a third between them in byte
+   order, and lines that run the other way: a comparison that treats names case-insensitively cycles *)
+KC(file, line) == K("pf", file, line, "GOPATH", FALSE)
+SpecialCase == {Mk(<<KC("p/Conn.go", 90)>>, FALSE, "s1"), Mk(<<KC("p/Pool.go", 50)>>, FALSE, "s1"), Mk(<<KC("p/conn.go", 10)>>, FALSE, "s1")}
+SSet == Plain \cup Special \cup SpecialArgs \cup SpecialCase
 S == SetToSeq(SSet)       \* some fixed enumeration
 
-MCTokRank == [t \in {"", "a/wu.go", "b/wl.go", "c/a.go", "d/a.go", "m/a.go", "p/a.go", "p/b.go", "s/a.go", "u/a.go", "cf", "df", "pf", "pg", "sf", "uf", "mf", "s1", "s2"} |->
-   CASE t = "" -> 0 [] t = "a/wu.go" -> 1 [] t = "b/wl.go" -> 2 [] t = "c/a.go" -> 3 [] t = "d/a.go" -> 4 [] t = "m/a.go" -> 5 [] t = "p/a.go" -> 6 [] t = "p/b.go" -> 7 [] t = "s/a.go" -> 8 [] t = "u/a.go" -> 9 [] t = "cf" -> 20 [] t = "df" -> 21 [] t = "pf" -> 22 [] t = "pg" -> 23 [] t = "sf" -> 24 [] t = "uf" -> 25 [] t = "mf" -> 26 [] t = "s1" -> 30 [] t = "s2" -> 31]
+MCTokRank == [t \in {"p/Conn.go", "p/Pool.go", "p/conn.go", "", "a/wu.go", "b/wl.go", "c/a.go", "d/a.go", "m/a.go", "p/a.go", "p/b.go", "s/a.go", "u/a.go", "cf", "df", "pf", "pg", "sf", "uf", "mf", "s1", "s2"} |->
+   \* byte order: "p/Conn.go" < "p/Pool.go" < "p/a.go" < "p/b.go" < "p/conn.go" (upper case before lower case)
+   CASE t = "" -> 0 [] t = "a/wu.go" -> 10 [] t = "b/wl.go" -> 20 [] t = "c/a.go" -> 30 [] t = "d/a.go" -> 40 [] t = "m/a.go" -> 50
+     [] t = "p/Conn.go" -> 52 [] t = "p/Pool.go" -> 54 [] t = "p/a.go" -> 60 [] t = "p/b.go" -> 70 [] t = "p/conn.go" -> 75
+     [] t = "s/a.go" -> 80 [] t = "u/a.go" -> 90
+     [] t = "cf" -> 200 [] t = "df" -> 210 [] t = "pf" -> 220 [] t = "pg" -> 230 [] t = "sf" -> 240 [] t = "uf" -> 250 [] t = "mf" -> 260
+     [] t = "s1" -> 300 [] t = "s2" -> 310]
 
 VARIABLES a, b, c
 vars == <<a, b, c>>
